@@ -35,6 +35,7 @@ def extract(ctx):
     require(CV, r'static constexpr bool allow_table_extending = true;', 'allow_table_extending')
     require(ST, r'const segment_type segment_allocation_failure_tag = reinterpret_cast<segment_type>\(1\);', 'failure tag')
     require(ST, r'static constexpr size_type embedded_table_size = segment_size\(pointers_per_embedded_table\);', 'embedded_table_size')
+    require(CV, r'static constexpr size_type default_first_block_size = 1;', 'default_first_block_size == 1')
 
     # ---- segment arithmetic ------------------------------------------------
     rw = Rewriter('seg')
@@ -86,8 +87,9 @@ def extract(ctx):
     t = rw.fields(t, ['my_segment_table'], 1)
     t = rw.sub(t, r'extend_table_if_necessary\(table,', 'st_extend_table_if_necessary(self, &table,', 1, 1, name='method+ref-param')
     t = rw.sub(t, r'enable_segment\(segment,', 'st_enable_segment(self, &segment,', 1, 1, name='method+ref-param')
+    t = rw.sub(t, r'(st_extend_table_if_necessary\(self, &table,[^;]*;|st_enable_segment\(self, &segment,[^;]*;)', r'\1 EXC_EDGE(NULL);', 2, 2, name='callee may throw: exception edge made explicit (EXC_EDGE)')
     t = rw.sub(t, r'throw_exception\(exception_id::(\w+)\);', r'VERIF_THROW(\1);', 1, 1, name='throw')
-    t = rw.sub(t, r'return segment\[index\];', 'return &segment[index];', 1, 1, name='ref-return')
+    t = rw.sub(t, r'return segment\[([^\];]*)\];', r'return &segment[\1];', 1, 1, name='ref-return')
     t = rw.asserts(t, 1)
     t = rw.std(t)
     sub_base = t
@@ -172,7 +174,70 @@ def extract(ctx):
     common.write(ctx, 'gbd.inc', gbd + '\n')
     common.write(ctx, 'afb.inc', afb + '\n')
     fired['grow'] = rw.fired
+    extract_ilc(ctx, sliced, fired)
+    extract_segments(ctx, sliced, fired)
     return sliced, fired
+
+
+GUARD_RX = {'args': r'(?s)auto value_guard = make_raii_guard\( \[&\] \{(.*?)\}\);',
+            'iter': r'(?s)\)\s*\.on_exception\( \[&\] \{(.*?)\}\);'}
+ILC_SIG = {'args': r'void internal_loop_construct\( segment_table_type table, size_type start_idx, size_type end_idx, const Args&\.\.\. args \)',
+           'iter': r'void internal_loop_construct\( segment_table_type table, size_type start_idx, size_type end_idx, ForwardIterator first, ForwardIterator \)'}
+
+
+def extract_ilc(ctx, sliced, fired):
+    """concurrent_vector::internal_loop_construct (both overloads).  The exception guard (a lambda handed to make_raii_guard /
+    try_call(...).on_exception) is sliced as a block of its own (`ilcg_<ovl>`, by-reference captures -> parameters); in the
+    loop function the guard object becomes a flag, and every callee that may throw is followed by an explicit exception edge."""
+    rw = Rewriter('ilc')
+    guards, loops = [], []
+    for ovl in ('args', 'iter'):
+        s = slice_block(CV, ILC_SIG[ovl])
+        sliced.append('%s:%d concurrent_vector::internal_loop_construct (%s overload) + its exception guard' % (s.rel, s.line, 'const Args&...' if ovl == 'args' else 'ForwardIterator'))
+        t = s.text
+        gm = re.search(GUARD_RX[ovl], t)
+        if not gm:
+            raise ExtractionBreak('internal_loop_construct(%s): exception guard lambda not found' % ovl)
+        rw.fired['guard lambda sliced (%s)' % ovl] = 1
+        # ---- the guard body: captures this, table, start_idx, idx by reference (read only) and end_idx by reference (written)
+        g = 'static void ilcg_%s(struct cv* self, segment_table_type table, size_type start_idx, size_type idx, size_type *end_idx_ref) {%s}\n' % (ovl, gm.group(1))
+        g = rw.sub(g, r'\bend_idx\b', '(*end_idx_ref)', 0, name='by-reference capture end_idx -> pointer parameter')
+        g = rw.sub(g, r'this->find_last_allocated_segment\(', 'st_find_last_allocated_segment(self, ', 0, name='method')
+        g = rw.sub(g, r'this->segment_size\(', 'st_segment_size(', 0, name='static-method (renamed: a local of the same name shadows it)')
+        g = rw.sub(g, r'zero_unconstructed_elements\(&this->internal_subscript\(([^;]*?)\), ([^;]*?)\);', r'STUB_zero_unconstructed_elements(SLOT_ADDR(self, \1), \2);', 0,
+                   name='&internal_subscript(i) -> SLOT_ADDR(self, i) (ref-return -> pointer); zero_unconstructed_elements -> memset stub')
+        g = rw.std(g)
+        g = tag_loops(g, 'ilcg_' + ovl, rw)
+        guards.append(g)
+        # ---- the loop function
+        if ovl == 'args':
+            t = rw.sub(t, ILC_SIG[ovl], 'static void cv_ilc_args(struct cv* self, segment_table_type table, size_type start_idx, size_type end_idx)', 1, 1, name='sig + bind-pack(Args:=const value_type&)')
+            t = rw.sub(t, r'static_assert\(sizeof\.\.\.\(Args\) < 2, "Too many parameters"\);', 'RG_NOP();', 1, 1, name='static_assert -> RG_NOP')
+            t = rw.sub(t, GUARD_RX[ovl], 'bool value_guard_active = true; /* raii_guard: body = ilcg_args, run at scope exit while active */', 1, 1, name='raii guard object -> flag (body sliced as ilcg_args)')
+            t = rw.sub(t, r'value_guard\.dismiss\(\);', 'value_guard_active = false;', 0, name='guard.dismiss()')
+            t = rw.sub(t, r'segment_table_allocator_traits::construct\(base_type::get_allocator\(\), ([^;]*?), args\.\.\.\);',
+                       r'STUB_construct(self, \1); if (EXC_PENDING()) { if (value_guard_active) ILC_GUARD_args(self, table, start_idx, idx, &end_idx); EXC_RETHROW(); }', 0,
+                       name='callee stub (element constructor; may throw: the exception edge runs the active guard and leaves)')
+            # normal scope exit of the guard object: end of the for body
+            k_ = t.rstrip().rfind('}')
+            k_ = t[:k_].rstrip().rfind('}')
+            t = t[:k_] + '    if (value_guard_active) ILC_GUARD_args(self, table, start_idx, idx, &end_idx); /* ~raii_guard */\n        ' + t[k_:]
+            rw.fired['raii guard destructor at scope exit'] = 1
+        else:
+            t = rw.sub(t, ILC_SIG[ovl], 'static void cv_ilc_iter(struct cv* self, segment_table_type table, size_type start_idx, size_type end_idx, size_type first)', 1, 1, name='sig + bind-template(ForwardIterator:=position in the source sequence)')
+            t = rw.sub(t, r'(?s)try_call\( \[&\] \{(.*?)\} \)\.on_exception\( \[&\] \{.*?\}\);', r'{ \1 if (EXC_PENDING()) { ILC_GUARD_iter(self, table, start_idx, idx, &end_idx); EXC_RETHROW(); } }', 0,
+                       name='try_call(body).on_exception(handler) -> { body; if (exception pending) { handler (sliced as ilcg_iter); rethrow } }')
+            t = rw.sub(t, r'\*\s*(first\+\+|\+\+first|first\b)', r'(\1)', 0, name='iterator dereference -> position (the j-th value of the source sequence is represented by j)')
+            t = rw.sub(t, r'segment_table_allocator_traits::construct\(base_type::get_allocator\(\), ([^;]*?), ([^;,]*?)\);', r'STUB_construct_from(self, \1, \2);', 0,
+                       name='callee stub (element constructor from the value at an iterator position; may throw)')
+        t = rw.sub(t, r'auto element_address = &base_type::template internal_subscript<true>\(([^;]*?)\);', r'value_type* element_address = STUB_subscript_growing(self, \1); EXC_PROPAGATE();', 0,
+                   name='callee stub (internal_subscript<true>: allocates or waits; may throw bad_alloc: exception edge made explicit)')
+        t = rw.std(t)
+        t = tag_loops(t, 'ilc_' + ovl, rw, expect=1)
+        loops.append(t)
+    common.write(ctx, 'ilc_guard.inc', '\n'.join(guards))
+    common.write(ctx, 'ilc_loop.inc', '\n'.join(loops))
+    fired['ilc'] = rw.fired
 
 
 def build(ctx):
@@ -187,25 +252,71 @@ def build(ctx):
         J('at.bounds', entry='h_at', route='LF', target='concurrent_vector::internal_subscript_with_exceptions + segment_table::internal_subscript<false>', source=CV),
         J('subscript.address', entry='h_subscript', route='LF', target='concurrent_vector::internal_subscript + segment_table::internal_subscript<false>', source=CV),
         J('g2al.decision', entry='h_g2al', route='LC', loops=True, nloops=3, target='concurrent_vector::internal_grow_to_at_least', source=CV),
+        J('g2al.waits', entry='h_g2al_waits', route='RG', defines=['G2W'], loops=True, nloops=3, target='concurrent_vector::internal_grow_to_at_least: wait for segments allocated by other calls', source=CV),
         J('gbd.disjoint', entry='h_gbd', route='RG', defines=['RG_MODE'], target='concurrent_vector::internal_grow_by_delta', source=CV),
         J('nes.count', entry='h_nes', route='LF', target='concurrent_vector::number_of_elements_in_segment', source=CV),
         J('afb.once', entry='h_afb', route='RG', defines=['RG_MODE'], target='segment_table::assign_first_block_if_necessary', source=ST),
     ]
+    for ovl in ('args', 'iter'):
+        src = CV + ' internal_loop_construct(%s) exception guard' % ('const Args&...' if ovl == 'args' else 'ForwardIterator')
+        d = ['ILCG', 'OVL_' + ovl.upper()]
+        jobs += [
+            J('ilc.guard.range.' + ovl, entry='h_ilc_guard', route='LC', loops=True, nloops=1, unwind=66, defines=d + ['ILCG_RANGE'],
+              target='exception guard of concurrent_vector::internal_loop_construct (%s overload): zero-fill range arithmetic, any table contents' % ovl, source=src),
+            J('ilc.guard.alloc.contiguous.' + ovl, entry='h_ilc_guard', route='LC', loops=True, nloops=1, unwind=66, defines=d,
+              target='exception guard of concurrent_vector::internal_loop_construct (%s overload) + internal_subscript: every segment of the call up to the last allocated one is allocated' % ovl, source=src),
+            J('ilc.guard.alloc.hole.' + ovl, entry='h_ilc_guard', route='LC', loops=True, nloops=1, unwind=66, defines=d + ['ILCG_HOLE'],
+              target='exception guard of concurrent_vector::internal_loop_construct (%s overload) + internal_subscript: an unallocated segment lies between the failing index and the last allocated segment' % ovl, source=src),
+            J('ilc.loop.' + ovl, entry='h_ilc_loop', route='LC', loops=True, nloops=1, defines=['ILCL', 'OVL_' + ovl.upper()],
+              target='concurrent_vector::internal_loop_construct (%s overload): construction loop, exception edges of allocation and constructor, guard activation/dismissal' % ovl, source=CV),
+            J('ilc.loop.prealloc.' + ovl, entry='h_ilc_loop', route='LC', loops=True, nloops=1, defines=['ILCL', 'ILCL_PREALLOC', 'OVL_' + ovl.upper()],
+              target='concurrent_vector::internal_loop_construct (%s overload): a segment allocation fails while a higher segment of the call is already allocated' % ovl, source=CV),
+        ]
+    jobs += [
+        J('seg.create', entry='h_create_segment', route='RG', defines=['SEGRG'], loops=True, nloops=3, target='concurrent_vector::create_segment (first-block election, owner-allocates, waiters; allocation failure tagging)', source=CV),
+        J('seg.create.failtag', entry='h_create_segment', route='RG', defines=['SEGRG', 'SEG_FAILTAG'], loops=True, nloops=3,
+          target='concurrent_vector::create_segment: first-block allocation fails while the embedded table is active and my_first_block < 3', source=CV),
+        J('seg.enable', entry='h_enable_segment', route='RG', defines=['SEGRG', 'SEG_ENABLE'], target='segment_table::enable_segment (against the contract of create_segment; CAS publication of a returned allocation)', source=ST),
+        J('table.extend', entry='h_extend_table', route='RG', defines=['EXTRG'], loops=True, nloops=1, unwind=66,
+          target='segment_table::extend_table_if_necessary + concurrent_vector::allocate_long_table (embedded -> long switch by one CAS)', source=ST),
+        J('subscript.growing', entry='h_subscript_growing', route='LF', defines=['GROW'], unwind=66, target='segment_table::internal_subscript<true> (operator[] of the base / growth path; against the contracts of extend_table_if_necessary and enable_segment)', source=ST),
+        J('reserve.segments', entry='h_reserve', route='LC', defines=['GROW', 'RESERVE'], loops=True, nloops=1, target='concurrent_vector::reserve + segment_table::reserve', source=CV),
+        J('grow.internal_grow', entry='h_internal_grow', route='LF', defines=['GROW'], unwind=66, target='concurrent_vector::internal_grow (against the contracts of its callees)', source=CV),
+        J('push.emplace_back', entry='h_emplace_back', route='RG', defines=['RG_MODE'], target='concurrent_vector::internal_emplace_back (push_back / emplace_back)', source=CV),
+    ]
     return {
         'jobs': jobs, 'sliced': sliced, 'fired': fired,
         'trusted': ['__builtin_clzl as modelled by CBMC (cross-checked natively against the real header in TV)',
-                    'concurrent_vector::internal_grow (stub that records its arguments; its body -- lambdas, try_call -- is out of reach)',
-                    'segment_table::extend_table_if_necessary / enable_segment (declared, unreachable with allow_out_of_range_access=false)',
-                    'sequentially consistent atomics', 'cxx2c rewriter up to translation validation'],
-        'drops': ['template headers (value_type:=int, Args...:=empty pack)', 'references -> pointers', 'std::atomic<T> -> T via ATOMIC_* macros, memory orders dropped',
-                  '__TBB_ASSERT -> proof obligation', 'throw_exception -> VERIF_THROW marker + path cut', 'atomic_backoff -> RG_NOP()',
-                  '#if TBB_USE_DEBUG block of internal_grow_to_at_least', 'iterator construction -> ITER(vector, index) record'],
-        'not_decided': ['waits for segments allocated by other threads', 'embedded->long table switch race (extend_table_if_necessary: lambdas, try_call)',
-                        'create_segment / internal_loop_construct / internal_grow bodies (lambdas, RAII guards, exceptions)',
-                        'constructor-throws zero-fill', 'termination of the spin loops'],
+                    'sequentially consistent atomics', 'cxx2c rewriter up to translation validation',
+                    'contract composition: each function is proved against the contracts of its callees, and every callee contract used as a stub is itself a job: '
+                    'internal_grow_by_delta/internal_grow_to_at_least -> internal_grow (grow.internal_grow) -> assign_first_block_if_necessary (afb.once), extend_table_if_necessary (table.extend), '
+                    'enable_segment (seg.enable) -> create_segment (seg.create), internal_loop_construct (ilc.loop.*) -> internal_subscript<true> (subscript.growing), exception guard (ilc.guard.*); reserve (reserve.segments) -> internal_subscript<true>; the non-growing branch of internal_grow_to_at_least (g2al.waits)',
+                    'element constructor / segment allocator / table allocator: stubs that either succeed (allocator: returns a fresh non-null address) or throw, nondeterministically',
+                    'zero_unconstructed_elements(p, n) == memset of the n slots at p (stub records the slots)',
+                    'segment_element_allocator_traits::deallocate / destroy_and_deallocate_table / deallocate_segment: stubs that record (pointer, size)',
+                    'spin_wait_while_eq(loc, v): returns only once loc != v (termination not claimed)',
+                    'try_call(body).on_exception(h) == run body; if it throws run h and rethrow; try_call(body).on_completion(h) == run body, run h on both edges; raii_guard == run the body at scope exit unless dismissed (detail/_template_helpers.h:190-246, read, not extracted)'],
+        'drops': ['template headers (value_type:=int, Args...:=one const value_type& / empty pack, ForwardIterator:=position in the source sequence)', 'references -> pointers (incl. by-reference lambda captures -> parameters of the sliced lambda body)',
+                  'std::atomic<T> -> T via ATOMIC_* / ENTRY_* macros, memory orders dropped', '__TBB_ASSERT -> proof obligation', 'throw_exception -> VERIF_THROW / EXC_THROW marker + path cut',
+                  'C++ exceptions -> a pending-exception flag; every callee that may throw is followed by an explicit edge (EXC_PROPAGATE / goto on_completion / guard body + EXC_RETHROW)',
+                  'lambdas handed to make_raii_guard / try_call().on_exception()/on_completion(): body sliced and placed at the edges where C++ runs it', 'atomic_backoff -> RG_NOP()', 'allocator object declarations -> RG_NOP()', 'static_assert -> RG_NOP()',
+                  '#if TBB_USE_DEBUG block of internal_grow_to_at_least', 'iterator construction -> ITER(vector, index) / ITER2(vector, index, address) record', 'CRTP self()->f() -> cv_f(self, ...)'],
+        'not_decided': ['termination of every spin loop (waits for a segment whose owner failed before tagging it, or whose table extension threw after entry 0 was published, spin for ever: liveness, not claimed)',
+                        'stale embedded snapshot in the exception guard: when the table pointer internal_grow took is the embedded table and another thread has since made the long table active, find_last_allocated_segment(snapshot) may miss segments that exist only in the long table; ilc.guard.complete is proved for snapshot == active table only (suspected window between the two store loops of the first-block winner; not reproduced natively)',
+                        'environment invariant that links the embedded and the long table across threads (every first-block entry is non-null in the embedded table before the copy is taken): used as rely, argued in the report, not proved',
+                        'grow_to_at_least(n) waits for segments to be ALLOCATED, not for their elements to be constructed (the code makes no such guarantee); my_segment_table is held fixed during g2al.waits',
+                        'interleavings are covered by rely/guarantee on one table entry / my_segment_table / my_size / my_first_block under SC; no proof that the stated relies are complete beyond the writers sliced here (create_segment, enable_segment, extend_table_if_necessary, allocate_long_table, internal_grow_by_delta, internal_emplace_back, assign_first_block_if_necessary); of the non-concurrent operations only reserve is under contract (reserve.segments); clear, shrink_to_fit/internal_compact, resize, swap, assignment, copy/move are not',
+                        'values stored by the element constructor (only which slot is constructed, how often, from which position of the source sequence)',
+                        'copy_segment / move_segment exception handlers, internal_resize, destroy_elements, internal_compact'],
         'assumptions': ['atomics are sequentially consistent', 'value_type is a trivially copyable type (int)',
                         'RG rely for my_size during concurrent growth: my_size only grows (resize/clear/shrink are documented as not concurrency-safe)',
-                        'my_size does not wrap around 2^64'],
+                        'my_size does not wrap around 2^64; vectors hold at most 2^63 elements (segment 63 is never allocated, my_first_block <= 63)',
+                        'closed world (scan-enforced): every store/CAS on a table entry or on my_segment_table in concurrent_vector.h / _segment_table.h lies in create_segment, enable_segment, extend_table_if_necessary (under contract) or in a constructor / clear / move / swap / shrink_to_fit helper (documented as not concurrency-safe)',
+                        'RG rely for a table entry: written only while NULL and only by its owner (first-block election winner / holder of the segment\'s first index); unique index ownership comes from gbd.disjoint / push.emplace_back',
+                        'RG rely for my_segment_table: embedded -> one long table, once; my_segment_table_allocation_failed: false -> true',
+                        'a biased segment address (allocation - segment_base(k) elements) is neither 0 nor 1',
+                        'table entries do not change while the exception guard runs (they can only turn from NULL to allocated, which turns a hole into storage)',
+                        'the callers of internal_loop_construct pass the range they claimed from my_size (start < end <= my_size) and a table that covers end (internal_grow: proved in grow.internal_grow)'],
     }
 
 
@@ -226,12 +337,15 @@ def tv(ctx):
 
 def replay(ctx, jobname, failure):
     """Replay a failed obligation on the real concurrent_vector."""
-    exe = native.build([os.path.join(HERE, 'c11_replay.cpp')], os.path.join(ctx.work, 'c11_replay'), flags=['-fno-access-control'], link_tbb=True)
+    exe = os.path.join(ctx.work, 'c11_replay')
+    if not os.path.exists(exe):   # ctx.work is emptied at the start of every run: the program is built once per run from the current tree
+        native.build([os.path.join(HERE, 'c11_replay.cpp')], exe + '.tmp', flags=['-fno-access-control'], link_tbb=True)
+        os.replace(exe + '.tmp', exe)
     ins = failure.get('inputs', {}) or {}
     args = [exe, jobname] + ['%s=%s' % (k, v) for k, v in sorted(ins.items())]
     rc, out = native.run(args, timeout=60, mem=12 << 30)
     rep = {'cmd': ' '.join(args), 'rc': rc, 'output': out[-1500:], 'reproduced': False, 'detail': ''}
-    m = re.search(r'REPRODUCED (.*)', out)
+    m = re.search(r'(?<!NOT-)REPRODUCED (.*)', out)
     if m:
         rep['reproduced'] = True
         rep['detail'] = m.group(1)
@@ -242,3 +356,190 @@ def replay(ctx, jobname, failure):
     else:
         rep['detail'] = 'native search found no failing input'
     return rep
+
+
+WRITE_RX = r'(\btable|my_embedded_table|my_segment_table|embedded_table|\w*segment_table)\b(\[[^\]]*\])?\.(store|compare_exchange_strong|compare_exchange_weak|exchange|fetch_\w+)\('
+WRITERS = {   # closed world for the rely on table entries / my_segment_table: (signature, ctor?, role)
+    CV: [(r'segment_type create_segment\( segment_table_type table, segment_index_type seg_index, size_type index \)', False, 'proved'),
+         (r'segment_type nullify_segment\( segment_table_type table, size_type segment_index \)', False, 'not concurrent (clear / resize / destructor)'),
+         (r'void internal_compact\(\)', False, 'not concurrent (shrink_to_fit)')],
+    ST: [(r'void enable_segment\( segment_type& segment, segment_table_type table, segment_index_type seg_index, size_type index \)', False, 'proved'),
+         (r'void extend_table_if_necessary\(segment_table_type& table, size_type start_index, size_type end_index\)', False, 'proved'),
+         (r'segment_table\( const allocator_type& alloc = allocator_type\(\) \)', True, 'constructor'),
+         (r'segment_table\( const segment_table& other \)', True, 'constructor'),
+         (r'segment_table\( const segment_table& other, const allocator_type& alloc \)', True, 'constructor'),
+         (r'segment_table\( segment_table&& other \)', True, 'constructor'),
+         (r'segment_table\( segment_table&& other, const allocator_type& alloc \)', True, 'constructor'),
+         (r'void clear_table\(\)', False, 'not concurrent (clear / destructor)'),
+         (r'void internal_move\( segment_table&& other \)', False, 'not concurrent (move)'),
+         (r'void internal_swap_fields\( segment_table& other \)', False, 'not concurrent (swap)'),
+         (r'void zero_table\( segment_table_type table, size_type count \)', False, 'not concurrent (constructors / clear)')],
+}
+
+
+def closed_world_writers(rw):
+    """every store / CAS on a table entry or on my_segment_table lies in a function that is under contract here or is documented as not
+    concurrency-safe; a writer in any other function is an extraction break (the rely of the RG jobs would no longer be what the code does)"""
+    from cxx2c import mask
+    n = 0
+    for rel, fns in WRITERS.items():
+        spans = []
+        for sig, ctor, role in fns:
+            s = slice_block(rel, sig, ctor=ctor)
+            spans.append((s.start, s.end, role))
+        m = mask(load(rel))
+        for h in re.finditer(WRITE_RX, m):
+            if not any(a <= h.start() < b for a, b, _ in spans):
+                ln = m.count('\n', 0, h.start()) + 1
+                raise ExtractionBreak('%s:%d: a write to the segment table (%s) outside the functions the rely/guarantee proofs know (closed-world scan)' % (rel, ln, h.group(0)))
+            n += 1
+    rw.fired['closed-world scan: writers of table entries / my_segment_table'] = n
+
+
+def extract_segments(ctx, sliced, fired):
+    """create_segment / enable_segment / extend_table_if_necessary / allocate_long_table: rely/guarantee on the table entries and on my_segment_table."""
+    rw = Rewriter('segrg')
+    closed_world_writers(rw)
+    # ---- concurrent_vector::create_segment
+    s = slice_block(CV, r'segment_type create_segment\( segment_table_type table, segment_index_type seg_index, size_type index \)')
+    sliced.append('%s:%d concurrent_vector::create_segment' % (s.rel, s.line))
+    t = rw.sub(s.text, r'segment_type create_segment\( segment_table_type table, segment_index_type seg_index, size_type index \)',
+               'static segment_type cv_create_segment(struct cv* self, segment_table_type table, segment_index_type seg_index, size_type index)', 1, 1, name='sig')
+    t = rw.sub(t, r'segment_element_allocator_type segment_allocator\(base_type::get_allocator\(\)\);', 'RG_NOP();', 0, name='allocator object declaration -> RG_NOP')
+    # try_call(body).on_exception(handler): the body is one allocation; its exception edge runs the handler and rethrows
+    t = rw.sub(t, r'(?s)try_call\( \[&\] \{(.*?)\} \)\.on_exception\( \[&\] \{(.*?)\}\);', r'{ \1 if (EXC_PENDING()) { { \2 } EXC_RETHROW(NULL); } }', 0,
+               name='try_call(body).on_exception(handler) -> { body; if (exception pending) { handler; rethrow } }')
+    # try_call(body).on_completion(handler): handler runs on both edges; a throwing callee in the body jumps to it
+    t = rw.sub(t, r'(?s)try_call\( \[&\] \{(.*?)\} \)\.on_completion\( \[&\] \{(.*?)\}\);', r'{ \1 on_completion_1: { \2 } if (EXC_PENDING()) EXC_RETHROW(NULL); }', 0,
+               name='try_call(body).on_completion(handler) -> { body; on_completion: handler; if (exception pending) rethrow }')
+    t = rw.sub(t, r'new_segment = segment_element_allocator_traits::allocate\(segment_allocator,\s*([^;]*?)\);(?=\s*new_segment -=)', r'ASSIGN_UNLESS_THROWN(new_segment, STUB_segment_allocate(self, \1)); if (EXC_PENDING()) goto on_completion_1;', 0,
+               name='callee stub (allocator; may throw: the exception edge skips the rest of the body and runs the completion handler)')
+    t = rw.sub(t, r'new_segment = segment_element_allocator_traits::allocate\(segment_allocator,\s*([^;]*?)\);', r'ASSIGN_UNLESS_THROWN(new_segment, STUB_segment_allocate(self, \1));', 0,
+               name='callee stub (allocator; may throw: no assignment then)')
+    t = rw.sub(t, r'segment_element_allocator_traits::deallocate\(segment_allocator, ([^;]*?)\);', r'STUB_segment_deallocate(self, \1);', 0, name='callee stub (deallocate)')
+    t = rw.sub(t, r'spin_wait_while_eq\(([^;]*?), segment_type\(nullptr\)\);', r'SPIN_WAIT_WHILE_EQ_AT(\1, NULL);', 0, name='spin-wait')
+    t = rw.sub(t, r'this->extend_table_if_necessary\(table,\s*0,\s*first_block_size\);', 'st_extend_table_if_necessary(self, &table, 0, first_block_size); EXC_PROPAGATE(NULL);', 0,
+               name='method + ref-param (may throw: exception edge made explicit)')
+    t = rw.atomics(t, ['my_first_block', 'table', 'my_embedded_table'], 1)
+    t = rw.sub(t, r'this->(segment_size|segment_base|segment_allocation_failure_tag|pointers_per_embedded_table)\b', r'\1', 1, name='static-method / constant')
+    t = rw.this_arrow(t, 1)
+    t = rw.asserts(t, 0)
+    t = rw.fcasts(t, TYPES)
+    t = rw.std(t)
+    t = rw.number_sites(t, 'cs', by_kind=True)
+    t = rw.sub(t, r'\bATOMIC_(LOAD|STORE|CAS)_AT\((\w+), ((?:self->)?\w+)\[([^\]]*)\]', r'ENTRY_\1_AT(\2, \3, \4', 1, name='atomic op on table[i] -> ENTRY_<op>_AT(site, table, i, ...) (lvalue split into array and index)')
+    t = rw.sub(t, r'\bSPIN_WAIT_WHILE_EQ_AT\(((?:self->)?\w+)\[([^\]]*)\]', r'ENTRY_SPIN_WAIT_WHILE_EQ_AT(\1, \2', 0, name='spin-wait on table[i] -> ENTRY_SPIN_WAIT_WHILE_EQ_AT(table, i, ...)')
+    t = tag_loops(t, 'cs', rw)
+    common.write(ctx, 'create_segment.inc', t + '\n')
+    # ---- segment_table::enable_segment
+    s = slice_block(ST, r'void enable_segment\( segment_type& segment, segment_table_type table, segment_index_type seg_index, size_type index \)')
+    sliced.append('%s:%d segment_table::enable_segment' % (s.rel, s.line))
+    t = rw.sub(s.text, r'void enable_segment\( segment_type& segment, segment_table_type table, segment_index_type seg_index, size_type index \)',
+               'void st_enable_segment(struct cv* self, segment_type* segment_ref, segment_table_type table, segment_index_type seg_index, size_type index)', 1, 1, name='sig (reference parameter -> pointer)')
+    t = rw.sub(t, r'(?<![\w.>])segment\b(?!_)', '(*segment_ref)', 1, name='ref-param')
+    t = rw.sub(t, r'self\(\)->create_segment\(table, seg_index, index\);', 'cv_create_segment(self, table, seg_index, index); EXC_PROPAGATE();', 1, 1, name='CRTP call (may throw: exception edge made explicit)')
+    t = rw.sub(t, r'self\(\)->deallocate_segment\(([^;]*?)\);', r'STUB_deallocate_segment(self, \1);', 0, name='CRTP call -> callee stub')
+    t = rw.atomics(t, ['table'], 1)
+    t = rw.sub(t, r'"If create_segment returned nullptr, the element should be stored in the table"', '"If create_segment returned nullptr the element should be stored in the table"', 0, name='(assert message: comma removed)')
+    t = rw.asserts(t, 0)
+    t = rw.std(t)
+    t = rw.number_sites(t, 'en', by_kind=True)
+    t = rw.sub(t, r'\bATOMIC_(LOAD|STORE|CAS)_AT\((\w+), ((?:self->)?\w+)\[([^\]]*)\]', r'ENTRY_\1_AT(\2, \3, \4', 1, name='atomic op on table[i] -> ENTRY_<op>_AT(site, table, i, ...)')
+    common.write(ctx, 'enable_segment.inc', t + '\n')
+    # ---- segment_table::extend_table_if_necessary + concurrent_vector::allocate_long_table
+    s = slice_block(ST, r'void extend_table_if_necessary\(segment_table_type& table, size_type start_index, size_type end_index\)')
+    sliced.append('%s:%d segment_table::extend_table_if_necessary' % (s.rel, s.line))
+    t = rw.sub(s.text, r'void extend_table_if_necessary\(segment_table_type& table, size_type start_index, size_type end_index\)',
+               'void st_extend_table_if_necessary(struct cv* self, segment_table_type* table_ref, size_type start_index, size_type end_index)', 1, 1, name='sig (reference parameter -> pointer)')
+    t = rw.sub(t, r'(?s)try_call\(\[&\] \{(.*?)\}\)\.on_exception\(\[&\] \{(.*?)\}\);', r'{ \1 on_exception_1: if (EXC_PENDING()) { { \2 } EXC_RETHROW(); } }', 0,
+               name='try_call(body).on_exception(handler) -> { body; on_exception: if (exception pending) { handler; rethrow } }')
+    t = rw.sub(t, r'self\(\)->allocate_long_table\(my_embedded_table, start_index\);', 'cv_allocate_long_table(self, self->my_embedded_table, start_index); if (EXC_PENDING()) goto on_exception_1;', 0,
+               name='CRTP call (may throw: the exception edge skips the rest of the body)')
+    t = rw.sub(t, r'destroy_and_deallocate_table\(([^;]*?)\);', r'STUB_destroy_and_deallocate_table(self, \1);', 0, name='callee stub (destroy_and_deallocate_table)')
+    t = rw.sub(t, r'throw_exception\(exception_id::bad_alloc\);', '{ EXC_THROW(bad_alloc); return; }', 0, name='throw -> pending-exception flag + return')
+    t = rw.sub(t, r'atomic_backoff backoff;', 'RG_NOP();', 0, name='drop-call->RG_NOP')
+    t = rw.sub(t, r'backoff\.pause\(\);', 'RG_NOP();', 0, name='drop-call->RG_NOP')
+    t = rw.sub(t, r'(?<![\w.>])table\b(?!_ref)', '(*table_ref)', 1, name='ref-param')
+    t = rw.atomics(t, ['my_segment_table', 'my_segment_table_allocation_failed'], 1)
+    t = rw.fields(t, ['my_segment_table', 'my_segment_table_allocation_failed', 'my_embedded_table'], 1)
+    t = rw.sub(t, r'self->self->', 'self->', 0, name='(idempotence)')
+    t = rw.std(t)
+    t = rw.number_sites(t, 'ext', by_kind=True)
+    t = tag_loops(t, 'ext', rw, expect=1)
+    ext = t
+    s = slice_block(CV, r'segment_table_type allocate_long_table\( const typename base_type::atomic_segment\* embedded_table, size_type start_index \)')
+    sliced.append('%s:%d concurrent_vector::allocate_long_table' % (s.rel, s.line))
+    t = rw.sub(s.text, r'segment_table_type allocate_long_table\( const typename base_type::atomic_segment\* embedded_table, size_type start_index \)',
+               'static segment_table_type cv_allocate_long_table(struct cv* self, segment_table_type embedded_table, size_type start_index)', 1, 1, name='sig')
+    t = rw.sub(t, r'spin_wait_while_eq\(embedded_table\[i\], segment_type\(nullptr\)\);', 'SPIN_WAIT_WHILE_EQ_AT(embedded_table[i], NULL);', 0, name='spin-wait')
+    t = rw.sub(t, r'this->get_table\(\)', 'ATOMIC_LOAD(self->my_segment_table)', 0, name='method get_table() -> atomic load of my_segment_table')
+    t = rw.sub(t, r'segment_table_allocator_traits::allocate\(base_type::get_allocator\(\), ([^;]*?)\);', r'STUB_table_allocate(self, \1); EXC_PROPAGATE(NULL);', 0, name='callee stub (allocator; may throw: exception edge made explicit)')
+    t = rw.sub(t, r'segment_table_allocator_traits::construct\(base_type::get_allocator\(\), &([^;,]*?),\s*([^;]*?)\);', r'STUB_construct_entry(&\1, \2);', 0, name='callee stub (construct an atomic entry = plain store into the private table)')
+    t = rw.atomics(t, ['embedded_table'], 0)
+    t = rw.sub(t, r'this->(segment_base|embedded_table_size|pointers_per_long_table|pointers_per_embedded_table)\b', r'\1', 1, name='static-method / constant')
+    t = rw.asserts(t, 0)
+    t = rw.fcasts(t, TYPES)
+    t = rw.std(t)
+    t = rw.number_sites(t, 'alt', by_kind=True)
+    t = tag_loops(t, 'alt', rw, expect=3)
+    common.write(ctx, 'extend_table.inc', t + '\n' + ext + '\n')
+    # ---- concurrent_vector::internal_grow / internal_emplace_back
+    s = slice_block(CV, r'iterator internal_grow\( size_type start_idx, size_type end_idx, const Args&\.\.\. args \)')
+    sliced.append('%s:%d concurrent_vector::internal_grow' % (s.rel, s.line))
+    t = rw.sub(s.text, r'iterator internal_grow\( size_type start_idx, size_type end_idx, const Args&\.\.\. args \)',
+               'iterator cv_internal_grow_body(struct cv* self, size_type start_idx, size_type end_idx)', 1, 1, name='sig + bind-pack')
+    t = rw.sub(t, r'this->assign_first_block_if_necessary\(([^;]*?)\);', r'st_assign_first_block_if_necessary(self, \1);', 0, name='method')
+    t = rw.sub(t, r'this->get_table\(\)', 'ATOMIC_LOAD(self->my_segment_table)', 0, name='method get_table() -> atomic load of my_segment_table')
+    t = rw.sub(t, r'this->extend_table_if_necessary\(table, ([^;]*?)\);', r'st_extend_table_if_necessary(self, &table, \1); EXC_PROPAGATE(ITER(self, 0));', 0, name='method + ref-param (may throw)')
+    t = rw.sub(t, r'base_type::enable_segment\(segment, ([^;]*?)\);', r'st_enable_segment(self, &segment, \1); EXC_PROPAGATE(ITER(self, 0));', 0, name='method + ref-param (may throw)')
+    t = rw.sub(t, r'internal_loop_construct\(([^;]*?), args\.\.\.\);', r'STUB_internal_loop_construct(self, \1); EXC_PROPAGATE(ITER(self, 0));', 0, name='method + bind-pack (may throw)')
+    t = rw.sub(t, r'return iterator\(\*this, ([^;,]*?), &base_type::template internal_subscript<false>\(([^;]*?)\)\);', r'return ITER2(self, \1, st_internal_subscript(self, \2, false));', 1, 1, name='iterator-ctor + method+template-arg')
+    t = rw.atomics(t, ['my_first_block', 'table'], 1)
+    t = rw.sub(t, r'this->(segment_index_of|segment_base)\(', r'\1(', 1, name='static-method')
+    t = rw.this_arrow(t, 0)
+    t = rw.fcasts(t, TYPES)
+    t = rw.std(t)
+    grow = t
+    s = slice_block(CV, r'iterator internal_emplace_back\( Args&&\.\.\. args \)')
+    sliced.append('%s:%d concurrent_vector::internal_emplace_back (push_back / emplace_back)' % (s.rel, s.line))
+    t = rw.sub(s.text, r'iterator internal_emplace_back\( Args&&\.\.\. args \)', 'iterator cv_internal_emplace_back(struct cv* self)', 1, 1, name='sig + bind-pack')
+    gm = re.search(r'(?s)auto value_guard = make_raii_guard\(\[&\] \{(.*?)\}\);', t)
+    if not gm:
+        raise ExtractionBreak('internal_emplace_back: value_guard = make_raii_guard([&]{...}) not found')
+    t = rw.sub(t, r'(?s)auto value_guard = make_raii_guard\(\[&\] \{.*?\}\);', 'bool value_guard_active = true; /* raii_guard: body inlined at the exception edge and at scope exit */', 1, 1, name='raii guard object -> flag')
+    gbody = gm.group(1).strip()
+    t = rw.sub(t, r'value_guard\.dismiss\(\);', 'value_guard_active = false;', 0, name='guard.dismiss()')
+    t = rw.sub(t, r'segment_table_allocator_traits::construct\(base_type::get_allocator\(\), ([^;]*?), std::forward<Args>\(args\)\.\.\.\);',
+               lambda m: 'STUB_construct(self, %s); if (EXC_PENDING()) { if (value_guard_active) { %s } EXC_RETHROW(ITER(self, 0)); }' % (m.group(1), gbody), 0,
+               name='callee stub (element constructor; may throw: the exception edge runs the active guard body and leaves)')
+    t = rw.sub(t, r'return iterator\(\*this, ([^;,]*?), ([^;,]*?)\);', lambda m: 'if (value_guard_active) { %s } /* ~raii_guard */ return ITER2(self, %s, %s);' % (gbody, m.group(1), m.group(2)), 1, 1, name='iterator-ctor + raii guard destructor at scope exit')
+    t = rw.sub(t, r'zero_unconstructed_elements\(', 'STUB_zero_unconstructed_elements(', 0, name='memset stub')
+    t = rw.sub(t, r'auto element_address = &base_type::template internal_subscript<true>\(([^;]*?)\);', r'value_type* element_address = STUB_subscript_growing(self, \1); EXC_PROPAGATE(ITER(self, 0));', 0,
+               name='callee stub (internal_subscript<true>; may throw bad_alloc)')
+    t = rw.sub(t, r'this->assign_first_block_if_necessary\(([^;]*?)\);', r'st_assign_first_block_if_necessary(self, \1);', 0, name='method')
+    t = rw.atomics(t, ['my_size'], 0)
+    t = rw.this_arrow(t, 0)
+    t = rw.std(t)
+    t = rw.number_sites(t, 'eb', by_kind=True)
+    # ---- reserve: concurrent_vector::reserve + segment_table::reserve
+    s = slice_block(CV, r'void reserve\( size_type n \)')
+    sliced.append('%s:%d concurrent_vector::reserve' % (s.rel, s.line))
+    r1 = rw.sub(s.text, r'void reserve\( size_type n \)', 'void cv_reserve(struct cv* self, size_type n)', 1, 1, name='sig')
+    r1 = rw.sub(r1, r'tbb::detail::throw_exception\(exception_id::reservation_length_error\);', '{ EXC_THROW(reservation_length_error); return; }', 0, name='throw -> pending-exception flag + return')
+    r1 = rw.sub(r1, r'max_size\(\)', 'cv_max_size(self)', 0, name='method')
+    r1 = rw.sub(r1, r'this->assign_first_block_if_necessary\(([^;]*?)\);', r'st_assign_first_block_if_necessary(self, \1);', 0, name='method')
+    r1 = rw.sub(r1, r'base_type::reserve\(n\);', 'st_reserve(self, n);', 0, name='base method')
+    r1 = rw.sub(r1, r'this->(segment_index_of)\(', r'\1(', 0, name='static-method')
+    s = slice_block(ST, r'void reserve\( size_type n \)')
+    sliced.append('%s:%d segment_table::reserve' % (s.rel, s.line))
+    r2 = rw.sub(s.text, r'void reserve\( size_type n \)', 'void st_reserve(struct cv* self, size_type n)', 1, 1, name='sig')
+    r2 = rw.sub(r2, r'allocator_traits_type::max_size\(my_segment_table_allocator\)', 'cv_max_size(self)', 0, name='allocator max_size -> stub')
+    r2 = rw.sub(r2, r'throw_exception\(exception_id::reservation_length_error\);', '{ EXC_THROW(reservation_length_error); return; }', 0, name='throw -> pending-exception flag + return')
+    r2 = rw.sub(r2, r'internal_subscript<true>\(([^;]*?)\);', r'STUB_subscript_growing(self, \1); EXC_PROPAGATE();', 0, name='callee stub (internal_subscript<true>; may throw)')
+    r2 = rw.atomics(r2, ['my_size'], 1)
+    r2 = rw.fields(r2, ['my_size'], 1)
+    r2 = tag_loops(r2, 'reserve', rw, expect=1)
+    common.write(ctx, 'reserve.inc', rw.std(r2) + '\n' + rw.std(r1) + '\n')
+    common.write(ctx, 'grow2.inc', grow + '\n')
+    common.write(ctx, 'emplace_back.inc', t + '\n')
+    fired['segrg'] = rw.fired
